@@ -317,6 +317,43 @@ struct RulesSession : public vw::Session {
     return R.regVbk(blk->getHeader());
   }
 
+  // atvn <vparent> <t:endorsed:payouthex>...: several honest ATVs (different endorsers = different payout infos, equal
+  // fees) whose VBK transactions are mined into ONE VBK block -> id of that block
+  std::string atvn(const std::vector<std::string>& t) {
+    if (t.size() < 3) return "SKIP args";
+    auto& R = *reg;
+    if (!R.vbk.count(t[1])) return "SKIP";
+    std::vector<VbkTx> txs;
+    std::vector<std::pair<std::string, std::string>> ids;
+    for (size_t k = 2; k < t.size(); k++) {
+      auto p1 = t[k].find(':');
+      auto p2 = t[k].find(':', p1 + 1);
+      if (p1 == std::string::npos || p2 == std::string::npos) return "SKIP args";
+      std::string tid = t[k].substr(0, p1), e = t[k].substr(p1 + 1, p2 - p1 - 1), pay = t[k].substr(p2 + 1);
+      if (!R.alt.count(e) || e == "a0" || R.atv.count(tid)) return "SKIP";
+      const auto& eb = R.alt.at(e);
+      PublicationData pub;
+      pub.payoutInfo = vh::unhex(pay);
+      pub.identifier = R.p.alt.getIdentifier();
+      pub.header = eb.block.toRaw();
+      const auto* prev = R.ref.getBlockIndex(eb.block.previousBlock);
+      pub.contextInfo = SerializeToVbkEncoding(AuthenticatedContextInfoContainer::createFromPrevious(uint256(), prev, R.p.alt));
+      txs.push_back(R.miner.createVbkTxEndorsingAltBlock(pub));
+      ids.emplace_back(tid, e);
+    }
+    R.tick();
+    auto* blk = R.miner.mineVbkBlocks(1, *R.vidx(t[1]), txs);
+    if (blk == nullptr) return "SKIP miner-rejected";
+    for (size_t k = 0; k < txs.size(); k++) {
+      auto a = R.miner.createATV(blk->getHeader(), txs[k]);
+      R.atv[ids[k].first] = a;
+      R.atvEndorsed[ids[k].first] = ids[k].second;
+      auto aid = a.getId();
+      R.names["id:" + vh::hex(aid.data(), aid.size())] = ids[k].first;
+    }
+    return R.regVbk(blk->getHeader());
+  }
+
   // xvtb <w> <endorsed v> <vparent> <bparent> <lastKnownBtc>: like `vtb`, but the containing VBK block is built
   // without the miner applying the VTB to its own tree (so the VTB may be contextually invalid)
   std::string xvtb(const std::vector<std::string>& t) {
@@ -523,6 +560,7 @@ struct RulesSession : public vw::Session {
     if (c == "verdict" && t.size() > 1) return verdict(I, curInst, t[1]);
     if (c == "xatv") return xatv(t);
     if (c == "xvtb") return xvtb(t);
+    if (c == "atvn") return atvn(t);
     if (c == "vtb2") return vtb2(t);
     if (c == "atvinfo" && t.size() > 1) return atvinfo(t[1]);
     if (c == "vtbinfo" && t.size() > 1) return vtbinfo(t[1]);
